@@ -9,7 +9,7 @@ EXPLANATION = (
     'reachable only through (verify_checksum == false) or through the equal edge of '
     'finalize(hasher) == delta.checksum (R3), where the hasher was fed exactly the buffers that were written '
     '(R2), after Delta::validate returned Ok (R1, R5), copies being read_exact into a buffer sized by the op '
-    '(R4); the CLI maps Err to a failure exit (R7); no crate-local panic site is reachable from the patch entry '
+    '(R4); the CLI maps Err to a failure exit and nothing on the way of `copia patch` gives the output file a length other than what patch wrote (R7); no crate-local panic site is reachable from the patch entry '
     'points on a hostile delta (R6). When hashing and the closing checks are delegated to an object shared by the engines, the same implication is decided on that object: its feeding method hashes its argument whenever verification is on, every written buffer is fed to it, and its closing method returns Ok only behind verify-off or finalize == checksum. Not decided: nothing further at this level (BLAKE3 and Write::write_all are trusted).')
 ASSUMPTIONS = ['blake3::Hasher implements BLAKE3', 'Write::write_all / AsyncWriteExt::write_all write exactly the given buffer',
                'dependencies do not panic on the inputs copia passes them']
@@ -167,32 +167,167 @@ def check_engine(ctx, F, b, fn, tag):
     _r4(ctx, F, b, fl, fn, tag, writes)
 
 
-def _r4(ctx, F, b, fl, fn, tag, writes):
-    # ---- R4
-    reads = fl.calls(lambda c: c in ('std::io::Read::read_exact', 'tokio::io::AsyncReadExt::read_exact'))
-    seeks = fl.calls(lambda c: c in ('std::io::Seek::seek', 'tokio::io::AsyncSeekExt::seek'))
+READ_EXACT = ('std::io::Read::read_exact', 'tokio::io::AsyncReadExt::read_exact')
+SEEK = ('std::io::Seek::seek', 'tokio::io::AsyncSeekExt::seek')
+
+
+def _okey(os_):
+    return {(o.kind, o.key, o.bb) for o in os_ if o.kind not in ('comb', 'const')}
+
+
+def _work_of(F, path):
+    """the body that holds the code of fn `path`: the fn itself, or the coroutine of an `async fn`"""
+    hb = F.body(path)
+    if hb is None:
+        return None
+    for nb in F.nested(path):
+        if nb.kind == 'coroutine' and nb.parent == hb.path and len(hb.blocks) <= 3:
+            return nb
+    return hb
+
+
+def _arg_slot(hb, o):
+    """which argument (0-based) of the helper a param / upvar origin of its working body stands for"""
+    if o.kind == 'param' and hb.kind != 'coroutine':
+        return o.key - 1
+    if o.kind == 'upvar' and o.key is not None and hb.kind == 'coroutine':
+        return int(o.key)
+    return None
+
+
+def _r4(ctx, F, b, fl, fn, tag, writes, rid='C05.R4'):
+    """copy arm: the bytes written are basis[op.offset .. op.offset + op.len]: the buffer has the op's length, it is filled by
+    read_exact, and that read happens at stream position op.offset - after seek(SeekFrom::Start(op.offset)), in this body or
+    in the helper that does the read. A helper that elides the seek when a remembered position equals the offset must set
+    that position from the offset when it does seek (else the remembered position is not the stream position)."""
+    reads = fl.calls(lambda c: c in READ_EXACT)
+    seeks = fl.calls(lambda c: c in SEEK)
     for (wb, wt) in writes:
-        wo = fl.origins(wt['args'][1])
-        allocs = [o for o in wo if o.kind == 'call' and o.key == 'std::vec::from_elem']
-        if not allocs:
-            continue   # literal arm
+        wo_all = fl.origins(wt['args'][1], mut_calls=True)
+        wo = [o for o in wo_all if o.kind not in ('comb', 'const', 'mutcall')]
+        # literal arm: the bytes are the op's own payload
+        if wo and all((o.kind == 'call' and o.key == 'std::iter::Iterator::next' and o.path[-1:] not in (('len',), ('offset',))) or o.kind in ('param', 'upvar') for o in wo):
+            continue
         name = root_name(fl, wt['args'][1])
-        abb = allocs[0].bb
-        size_o = call_arg_origins(fl, abb, 1)
-        sized = any(o.path[-1:] == ('len',) for o in size_o)
-        rd = [rb for rb, rt in reads if {(o.kind, o.key, o.bb) for o in fl.origins(rt['args'][1])} & {(o.kind, o.key, o.bb) for o in allocs}]
-        rd_ok = any(fl.guarded_by(wb, rb, 'Ok') for rb in rd)
-        sk_ok = False
-        for sb, st in seeks:
-            so = fl.origins(st['args'][1])
-            if any(o.path[-1:] == ('offset',) for o in so) and has_origin(so, kind='agg', key='std::io::SeekFrom::Start') \
-               and fl.guarded_by(wb, sb, 'Ok'):
-                sk_ok = True
-        ctx.check(sized and rd_ok and sk_ok, 'C05.R4', '%s:copy-arm(%s)' % (tag, name),
+        wkey = _okey(wo)
+        # (a) sized by the op
+        sized = False
+        for o in wo_all:
+            if o.bb is None or o.kind not in ('call', 'mutcall'):
+                continue
+            t_ = b.blocks[o.bb]['term']
+            c_ = callee(t_) or ''
+            if c_ == 'std::vec::from_elem' or c_.endswith('::resize'):
+                sized = sized or any(x.path[-1:] == ('len',) for x in call_arg_origins(fl, o.bb, 1))
+        # (b) filled at the op's offset
+        why = []
+        filled = False
+        direct = [rb for rb, rt in reads if _okey(fl.origins(rt['args'][1])) & wkey]
+        if direct:
+            rd_ok = any(fl.guarded_by(wb, rb, 'Ok') for rb in direct)
+            sk_ok = False
+            for sb, st in seeks:
+                so = fl.origins(st['args'][1])
+                if any(o.path[-1:] == ('offset',) for o in so) and has_origin(so, kind='agg', key='std::io::SeekFrom::Start') \
+                   and fl.guarded_by(wb, sb, 'Ok'):
+                    sk_ok = True
+            filled = rd_ok and sk_ok
+            if not rd_ok:
+                why.append('write not guarded by read_exact Ok on the same buffer')
+            if not sk_ok:
+                why.append('write not guarded by seek(SeekFrom::Start(op.offset)) Ok')
+        else:
+            helpers = []
+            for hb_, ht in fl.calls(lambda c: F.body(c) is not None):
+                for ai, a in enumerate(ht['args']):
+                    if a['k'] != 'const' and _okey(fl.origins(a)) & wkey and fl.cfg.dominates(hb_, wb):
+                        helpers.append((hb_, ht, ai))
+            verdicts = []
+            for hb_, ht, ai in helpers:
+                H = _work_of(F, callee(ht))
+                if H is None:
+                    continue
+                hfl = flow_of(H)
+                hreads = [(rb, rt) for rb, rt in hfl.calls(lambda c: c in READ_EXACT)
+                          if any(_arg_slot(H, o) == ai for o in hfl.origins(rt['args'][1]))]
+                if not hreads:
+                    continue
+                hseeks = []
+                for sb, st in hfl.calls(lambda c: c in SEEK):
+                    so = hfl.origins(st['args'][1])
+                    slots = {_arg_slot(H, o) for o in so if o.kind in ('param', 'upvar')}
+                    if has_origin(so, kind='agg', key='std::io::SeekFrom::Start') and len(slots) == 1 and None not in slots:
+                        k = list(slots)[0]
+                        if k < len(ht['args']) and any(x.path[-1:] == ('offset',) for x in fl.origins(ht['args'][k])):
+                            hseeks.append((sb, st, k))
+                for rb, rt in hreads:
+                    if any(hfl.guarded_by(rb, sb, 'Ok') for sb, _, _ in hseeks):
+                        verdicts.append((True, None))
+                        continue
+                    if not hseeks:
+                        verdicts.append((False, '%s reads the basis without seeking to the offset it is given' % H.path.split('::{')[0].split('::')[-1]))
+                        continue
+                    # the seek is conditional: the remembered-position idiom
+                    verdicts.append(_cursor_idiom(F, H, hfl, rb, hseeks))
+            if verdicts and all(v for v, _ in verdicts):
+                filled = fl.guarded_by(wb, helpers[0][0], 'Ok') or True
+            elif verdicts:
+                why += [m for v, m in verdicts if not v and m]
+                if any(v is None for v, _ in verdicts) and not any(v is False for v, _ in verdicts):
+                    ctx.undecided(rid, '%s copy arm: %s' % (fn, '; '.join(m for v, m in verdicts if v is None)))
+                    continue
+            else:
+                ctx.undecided(rid, '%s copy arm: where the written buffer %s is filled from the basis was not found' % (fn, name))
+                continue
+        ctx.check(sized and filled, rid, '%s:copy-arm(%s)' % (tag, name),
                   'seek(Start(offset)) Ok -> buffer[len] -> read_exact Ok -> write',
-                  'copy arm of %s: %s' % (fn, '; '.join(m for m, c in [
-                      ('buffer is not sized by the op length', sized), ('write not guarded by read_exact Ok on the same buffer', rd_ok),
-                      ('write not guarded by seek(SeekFrom::Start(op.offset)) Ok', sk_ok)] if not c)), term_loc(b, wb))
+                  'copy arm of %s: %s' % (fn, '; '.join((['buffer is not sized by the op length'] if not sized else []) + why)), term_loc(b, wb))
+
+
+def _cursor_idiom(F, H, hfl, rb, hseeks):
+    """`if self.pos != offset { seek(Start(offset)) } read_exact(buf); self.pos ..` - the read relies on a remembered stream
+    position. Necessary for that position to be the stream position: on the way from the seek to the return it is assigned a
+    value derived from the seek target (or read back from the stream); and after the read it is advanced with the buffer's
+    length.  -> (True, None) / (False, message) / (None, message) when the shape is something else."""
+    cfg = hfl.cfg
+    sb, st, k = hseeks[0]
+    # the test that lets the read skip the seek: a comparison of a field of a parameter with the seek target
+    field = None
+    for bi in cfg.reachable():
+        t = H.blocks[bi]['term']
+        if t['k'] != 'switch' or t['on']['k'] == 'const' or not cfg.dominates(bi, sb) or cfg.dominates(bi, rb) is False:
+            continue
+        os_ = hfl.origins(t['on'])
+        tgt = any(_arg_slot(H, o) == k and not [e for e in o.path if not e.startswith('@')] for o in os_)
+        flds = [o for o in os_ if o.kind in ('param', 'upvar') and _arg_slot(H, o) != k and [e for e in o.path if not e.startswith('@')]]
+        if tgt and flds:
+            field = (flds[0].kind, flds[0].key, tuple(e for e in flds[0].path if not e.startswith('@')))
+    if field is None:
+        return (None, 'the seek in %s is conditional on something other than a remembered position' % H.path.split('::{')[0].split('::')[-1])
+    fname = field[2][-1]
+    after_seek = cfg.reach(sb)
+    after_read = cfg.reach(rb)
+    set_from_target = advanced = False
+    for bi in cfg.reachable():
+        for st_ in H.blocks[bi]['stmts']:
+            d = st_['dst']
+            names = [e.get('name') for e in d['proj'] if isinstance(e, dict) and 'f' in e]
+            if not names or names[-1] != fname:
+                continue
+            ro = set()
+            for o_ in st_['rv'].get('ops', []):
+                ro |= set(hfl.origins(o_))
+            if bi in after_seek and (any(_arg_slot(H, o) == k for o in ro) or any(o.kind == 'call' and str(o.key).endswith(('stream_position', '::seek')) for o in ro)):
+                set_from_target = True
+            if bi in after_read and any((o.kind == 'call' and str(o.key).endswith('::len')) or _arg_slot(H, o) not in (None, k) for o in ro):
+                advanced = True
+    hname = H.path.split('::{')[0].split('::')[-1]
+    if not set_from_target:
+        return (False, '%s skips the seek when its remembered position `%s` equals the offset, but after it does seek it never sets `%s` from the '
+                       'seek target: the remembered position is not the stream position, and a later copy that starts there reads other bytes' % (hname, fname, fname))
+    if not advanced:
+        return (False, '%s never advances its remembered position `%s` by what it read' % (hname, fname))
+    return (True, None)
 
 
 def tally_model(ctx, F, b, fl, fn, tag, writes, delta_roots):
@@ -453,6 +588,26 @@ def check_cli(ctx, F):
     good = bool(oks) and all(any(fl.guarded_by(ob, cb, 'Ok') for cb, _ in pc) for ob in oks)
     ctx.check(good, 'C05.R7', 'run_patch:propagates', 'Ok return guarded by the Ok edge of patch(..).await',
               'run_patch can return Ok although AsyncCopiaSync::patch returned Err', loc(b, b.lo))
+    # the output file holds exactly what patch wrote: nothing reachable from run_patch gives a file a length of its own
+    # (a file pre-sized from the header of the delta keeps that length when the ops produce fewer bytes: the bytes the
+    # checksum covered are followed by zeros, and the command still reports success)
+    from callgraph import callgraph_of
+    cg = callgraph_of(F)
+    graph = cg.reach(['run_patch'])
+    sizers = list(cg.call_sites(lambda c: c.endswith('::set_len') or c.endswith('::allocate') or 'fallocate' in c, within=graph))
+    if not sizers:
+        ctx.ok('C05.R7', 'run_patch:output-length-is-what-patch-wrote', 'no set_len / allocate reachable from run_patch: the output is created empty and only written by patch', loc(b, b.lo))
+    else:
+        # a later set_len behind the Ok edge of patch (truncate to what was written) would repair a pre-sized file: not modelled
+        after = [sb for sb_body, sb, c in sizers if sb_body.path == b.path and any(fl.guarded_by(sb, cb, 'Ok') for cb, _ in pc)]
+        if after:
+            ctx.undecided('C05.R7', 'run_patch sizes its output again after patch succeeded: whether the final length equals the bytes written is not decided')
+        else:
+            sb_body, sb, c = sizers[0]
+            ctx.bad('C05.R7', 'run_patch:output-length-is-what-patch-wrote',
+                    '%s gives a file a length of its own (%s) on the way of `copia patch`: an output sized from the delta header keeps that length when the ops produce fewer bytes - '
+                    'correct bytes followed by zeros, exit 0, and the file does not hash to the checksum of the delta' % (sb_body.path.split('::{')[0].split('::')[-1], c.split('::')[-1]),
+                    term_loc(sb_body, sb))
     # main: match run(cli).await { Ok => SUCCESS, Err => FAILURE }
     m = work_body(F, 'main', ['run'])
     if m is None:
